@@ -67,7 +67,7 @@ func ratReduce(rat *big.Rat) (result slip.Object) {
 		if zi.IsInt64() {
 			result = slip.Fixnum(zi.Int64())
 		} else {
-			result = (*slip.Bignum)(zi)
+			result = slip.IntegerFromBig(zi)
 		}
 	} else {
 		result = (*slip.Ratio)(rat)
